@@ -124,7 +124,11 @@ func VerifActiveSearch() {
 	}
 	rt.Reach("built")
 
-	qi := rt.Choose(len(vASQueries))
+	nq := len(vASQueries)
+	if k := rt.Param("QSET"); k > 0 && k < nq {
+		nq = k // a prefix of the query catalogue (bounds the thorough tier)
+	}
+	qi := rt.Choose(nq)
 	from, to := seq.MID(rt.NondetU64()), seq.MID(rt.NondetU64())
 	limit := rt.NondetInt()
 	rt.Assume(rt.And(0 <= limit, limit <= n+1))
